@@ -51,11 +51,11 @@ PROPS = {
    'must_reach': ['heap_absorb', 'heap_destroy', 'use_delayed_spin'],
  },
  'C11': {
-   'families': [('c11_repeat', 2, ALL), ('c11_timed', 2, ALL), ('c11_heapdelete', 2, ALL), ('c09_exit', 1, ALL), ('c09_adopt_race', 1, ALL)],
-   'runs': {'quick': 720, 'thorough': 30000},
+   'families': [('c11_repeat', 2, ALL), ('c11_timed', 2, ALL), ('c11_heapdelete', 2, ALL), ('c11_manyarenas', 1, ALL), ('c09_exit', 1, ALL), ('c09_adopt_race', 1, ALL)],
+   'runs': {'quick': 800, 'thorough': 30000},
    'rule': 'non-trivial = the give-back oracle ran at quiescence after >= 3 repetitions; distinct = distinct event hash',
    'nontrivial': lambda r: sw(r, 'giveback_checked') > 0, 'distinct_by': 'event',
-   'must_reach': ['giveback_checked'],
+   'must_reach': ['giveback_checked', 'arenas_8plus'],
  },
  'C18': {
    'families': [('c18_purge', 1, ALL)],
